@@ -188,4 +188,94 @@ theorem rsa_needs_alg (a : Algs) (bits sfl : Nat) (h : a.enabled.contains 1 = fa
 theorem custom_level (l : Nat) : customLevelOk (some l) = true ↔ 2 ≤ l ∧ l ≤ STATE_FORMAT_LEVEL_CURRENT := by
   simp [customLevelOk]
 
+/-! ### Attributes -/
+
+/-- an unknown attribute name is refused -/
+theorem attr_unknown_refused (acc : Nat × Nat) (tok : String) (m : Nat) (h : attrProps.find? (·.1 == tok) = none) :
+    attrToken acc tok m = none := by simp [attrToken, h]
+
+/-- an attribute is refused below the StateFormatLevel it needs -/
+theorem attr_level_refused (acc : Nat × Nat) (tok : String) (m : Nat) (e : String × Nat × Nat)
+    (h : attrProps.find? (·.1 == tok) = some e) (hl : m < e.2.2) : attrToken acc tok m = none := by
+  obtain ⟨n, f, sfl⟩ := e
+  simp only [attrToken, h]
+  have : ¬ sfl ≤ m := by simpa using hl
+  simp [this]
+
+/-- once one item is refused the whole list is -/
+theorem attr_fold_none (m : Nat) : ∀ (toks : List String),
+    toks.foldl (fun (acc : Option (Nat × Nat)) tok => acc.bind (fun a => attrToken a tok m)) none = none := by
+  intro toks; induction toks with
+  | nil => rfl
+  | cons t ts ih => simpa [List.foldl] using ih
+
+/-- **a list with an item that is unknown (or needs a higher StateFormatLevel) is refused as a whole**, wherever the item stands -/
+theorem attr_list_refused (m : Nat) (pre post : List String) (bad : String)
+    (hbad : ∀ acc, attrToken acc bad m = none) (start : Option (Nat × Nat)) :
+    (pre ++ bad :: post).foldl (fun (acc : Option (Nat × Nat)) tok => acc.bind (fun a => attrToken a tok m)) start = none := by
+  rw [List.foldl_append]
+  simp only [List.foldl]
+  have : (Option.bind (List.foldl (fun (acc : Option (Nat × Nat)) tok => acc.bind (fun a => attrToken a tok m)) start pre) fun a => attrToken a bad m) = none := by
+    cases List.foldl (fun (acc : Option (Nat × Nat)) tok => acc.bind (fun a => attrToken a tok m)) start pre with
+    | none => rfl
+    | some a => simp [hbad a]
+  rw [this]
+  exact attr_fold_none m post
+
+theorem attr_listL_refused (m : Nat) (pre post : List String) (bad : String) (hbad : ∀ acc, attrToken acc bad m = none) :
+    setAttributesL (pre ++ bad :: post) m = none := attr_list_refused m pre post bad hbad (some (0, 0))
+
+/-- an accepted item only adds flags and never lowers the level -/
+theorem attr_token_mono (acc r : Nat × Nat) (tok : String) (m : Nat) (h : attrToken acc tok m = some r) :
+    (∀ f, hasFlag acc.1 f = true → hasFlag r.1 f = true) ∧ acc.2 ≤ r.2 := by
+  unfold attrToken at h
+  cases hf : attrProps.find? (·.1 == tok) with
+  | none => simp [hf] at h
+  | some e =>
+    obtain ⟨n, fl, sfl⟩ := e
+    simp only [hf] at h
+    by_cases hl : sfl ≤ m
+    · simp only [hl, if_true, Option.some.injEq] at h
+      subst h
+      refine ⟨fun f hacc => ?_, Nat.le_max_left _ _⟩
+      simp only [hasFlag, ne_eq, decide_eq_true_eq] at hacc ⊢
+      intro hz
+      apply hacc
+      apply Nat.eq_of_testBit_eq
+      intro i
+      have := congrArg (fun x => x.testBit i) hz
+      simp only [Nat.testBit_and, Nat.testBit_or, Nat.zero_testBit] at this ⊢
+      cases h1 : acc.1.testBit i <;> cases h2 : f.testBit i <;> simp_all
+    · simp [hl] at h
+
+/-- every attribute of this library needs StateFormatLevel 7 (the table is regenerated from the source) -/
+theorem attr_levels : attrProps.all (fun e => e.2.2 == 7) = true := by decide
+
+/-- `fips-host` switches on exactly: no unpadded encryption, no SHA-1 signing, no SHA-1 verification -/
+theorem fips_host_flags : setAttributesL ["fips-host"] 7 = some (ATTR_NO_UNPADDED_ENCRYPTION ||| ATTR_NO_SHA1_SIGNING ||| ATTR_NO_SHA1_VERIFICATION, 7) := by decide
+theorem no_sha1_hmac_flags : setAttributesL ["no-sha1-hmac"] 7 = some (ATTR_NO_SHA1_HMAC_CREATION ||| ATTR_NO_SHA1_HMAC_VERIFICATION, 7) := by decide
+
+/-- **enforcement**: with the flag set the probe is refused (with the code the C source returns), without it the probe is not -/
+theorem attr_enforced (flags : Nat) :
+    (hasFlag flags ATTR_NO_UNPADDED_ENCRYPTION = true → attrProbe flags 1 = 0x92) ∧
+    (hasFlag flags ATTR_NO_SHA1_SIGNING = true → attrProbe flags 2 = 0x83) ∧
+    (hasFlag flags ATTR_NO_SHA1_VERIFICATION = true → attrProbe flags 3 = 0x83) ∧
+    (hasFlag flags ATTR_NO_SHA1_HMAC_CREATION = true → attrProbe flags 4 = 0x83) ∧
+    (hasFlag flags ATTR_NO_SHA1_HMAC_VERIFICATION = true → attrProbe flags 5 = 0x83) ∧
+    (hasFlag flags ATTR_NO_ECC_KEY_DERIVATION = true → attrProbe flags 6 = 0x8A) := by
+  refine ⟨?_, ?_, ?_, ?_, ?_, ?_⟩ <;> intro h <;> simp [attrProbe, h]
+
+theorem attr_not_overreaching (flags : Nat) :
+    (hasFlag flags ATTR_NO_UNPADDED_ENCRYPTION = false → attrProbe flags 1 = 0) ∧
+    (hasFlag flags ATTR_NO_SHA1_SIGNING = false → attrProbe flags 2 = 0) ∧
+    (hasFlag flags ATTR_NO_SHA1_HMAC_CREATION = false → attrProbe flags 4 = 0) ∧
+    (hasFlag flags ATTR_NO_ECC_KEY_DERIVATION = false → attrProbe flags 6 = 0) := by
+  refine ⟨?_, ?_, ?_, ?_⟩ <;> intro h <;> simp [attrProbe, h]
+
+example : setAttributesL ["pct", "no-such-attribute"] 7 = none := by decide
+example : setAttributesL ["no-sha1-signing"] 6 = none := by decide
+example : setAttributesL ["no-sha1-signing", "", "pct"] 7 = none := by decide
+example : setAttributes "" 2 = some (0, 0) := by simp [setAttributes]
+
+
 end TpmVerif.Props.C14
